@@ -2,6 +2,7 @@ CONSTANTS
   Family = "C12t"
   IdBytes = 20
   MaxSeq = 7
+  Seeded = {}
 INIT Init
 NEXT Next
 INVARIANTS
